@@ -19,7 +19,7 @@ inductive Res (α : Type) where
   | ok (a : α)
   | err (e : Err) (n : Nat)
   | panic
-  deriving Repr
+  deriving Repr, DecidableEq
 
 namespace Res
 def isPanic {α} : Res α → Bool
